@@ -220,6 +220,12 @@ HZ == Zeros(20)
 BR1 == Ramp(7, 32)
 BR2 == Zeros(32)
 C32 == Ramp(200, 32)
+\* payloads that begin with, and contain again, the binary base58 prefix bytes of their own kind (tz1 06a19f, tz2 06a1a1, tz3 06a1a4, tz4 06a1a6, KT1 025a79,
+\* sr1 067c75, B 0134, src1 11a5868a): a payload is cut off its prefix by position, never by content
+HP == <<6, 161, 159, 161, 164, 166, 6, 9>> \o <<6, 161, 159>> \o <<6, 161, 161>> \o <<6, 161, 164>> \o <<6, 161, 166>>
+HK == <<2, 90, 121, 90, 2, 7>> \o <<2, 90, 121>> \o <<6, 124, 117, 6, 124, 117>> \o Ramp(5, 5)
+BR3 == <<1, 52, 52, 1, 8>> \o <<1, 52>> \o Ramp(3, 23) \o <<1, 52>>
+C32P == <<17, 165, 134, 138, 17, 3>> \o <<17, 165, 134, 138>> \o Ramp(4, 22)
 IntTab == << <<FALSE, <<>>>>,                           \* 1: 0
              <<FALSE, <<127>>>>,                        \* 2: 127
              <<FALSE, <<128>>>>,                        \* 3: 128
@@ -275,7 +281,11 @@ MiscContents ==
   \cup {<<"smart_rollup_add_messages">> \o h \o <<m>> : h \in {H1, H2}, m \in {<<>>, <<Msg1>>, <<Msg1, Msg2>>, <<Msg0>>, <<Msg0, Msg1>>}}
   \cup {<<"smart_rollup_execute_outbox_message">> \o h \o <<r, C32, pr>> : h \in {H1, H2}, r \in {HA, HZ}, pr \in {<<>>, Ramp(11, 40)}}
   \cup {<<"failing_noop", m>> : m \in {<<>>, TextMsg1, TextHex, EpLong}}
-  \cup {<<"activate_account", p, HB>> : p \in {HA, HZ}}
+  \cup {<<"activate_account", p, HB>> : p \in {HA, HZ, HP}}
+  \cup UNION {{<<"delegation">> \o Hdr(k, HP, 1, 2, 3, 4) \o <<dl>> : dl \in {<<"none">>, <<"some", <<k, HP>>>>}} : k \in 0..3}
+  \cup UNION {{<<"transaction">> \o Hdr(k, HP, 2, 1, 1, 1) \o <<IntTab[2], d, <<"none">>>> :
+          d \in {<<"implicit", <<k, HP>>>>, <<"originated", HK>>, <<"rollup", HK>>, <<"originated", HP>>}} : k \in 0..3}
+  \cup {<<"smart_rollup_execute_outbox_message">> \o H1 \o <<HK, C32P, <<>>>>}
 MixPool == {
    <<"reveal">> \o H1 \o <<Pk(0), <<"none">>>>,
    <<"reveal">> \o H2 \o <<Pk(3), <<"some", Proof96>>>>,
@@ -295,7 +305,7 @@ Singles(brs, cs) == {<<br, <<c>>>> : br \in brs, c \in cs}
 GroupsOf(family) ==
   CASE family = "hdr"  -> Singles({BR1}, HdrContents)
     [] family = "tx"   -> Singles({BR1}, TxContents)
-    [] family = "misc" -> Singles({BR1, BR2}, MiscContents)
+    [] family = "misc" -> Singles({BR1, BR2, BR3}, MiscContents)
     [] family = "mix"  -> UNION {{<<BR1, s>> : s \in [1..n -> MixPool]} : n \in 2..MaxLen}
     [] family = "vec"  -> VecGroups
 Groups == UNION {GroupsOf(f) : f \in Families}
